@@ -1,11 +1,11 @@
-import Aiortc.Lemmas.SctpLifeHandle
-import Aiortc.Lemmas.SctpBufHandle
-import Aiortc.Lemmas.SctpClose
-import Aiortc.Lemmas.SctpIds
-import Aiortc.Lemmas.SctpDcep
-import Aiortc.Lemmas.SctpUtf8
-import Aiortc.Lemmas.SctpNeg
-import Aiortc.Lemmas.SctpOpen
+import Aiortc.Lemmas.C13.SctpLifeHandle
+import Aiortc.Lemmas.C13.SctpBufHandle
+import Aiortc.Lemmas.C13.SctpClose
+import Aiortc.Lemmas.C13.SctpIds
+import Aiortc.Lemmas.C13.SctpDcep
+import Aiortc.Lemmas.C13.SctpUtf8
+import Aiortc.Lemmas.C13.SctpNeg
+import Aiortc.Lemmas.C13.SctpOpen
 /-!
 # C13 — data channel lifecycle: faithful open, forward-only states, exact bufferedAmount
 
